@@ -109,9 +109,6 @@ def run_check(P, tier, seed, replay=None):
         bad = audit_sources()
         for b in bad:
             broken.append(("forbidden-vernacular", b, ""))
-        # property-specific ties to the source that are regenerated on every run (e.g. the panic-site inventory)
-        for kind_, detail_ in getattr(P, "obligations", lambda: [])():
-            broken.append((kind_, detail_, ""))
         rd = build_driver(driver_name)
         driver = driver_bin(driver_name) if rd.ok else None
         if not rd.ok:
@@ -127,6 +124,11 @@ def run_check(P, tier, seed, replay=None):
             extra_bins[name] = harness_bin(pf, tuple(ft), bin_name)
     harness = harness_bin(profile, features, bin_name)
     P.BINS = dict(extra_bins, main=harness)
+    # property-specific ties that are regenerated / re-evaluated on every run (the panic-site inventory, the Coq vs python
+    # normaliser cross-check, ...): a failing one is a broken obligation
+    P.DRIVER_BIN = driver
+    for kind_, detail_ in getattr(P, "obligations", lambda: [])():
+        broken.append((kind_, detail_, ""))
 
     if not rh.ok:
         # nothing can be observed on the implementation
